@@ -1,15 +1,15 @@
 package main
 
 import (
-	"context"
 	"bytes"
+	"context"
 	"fmt"
 	"net"
 	"strings"
 
 	"github.com/nextdns/nextdns/config"
-	"github.com/nextdns/nextdns/resolver/query"
 	"github.com/nextdns/nextdns/resolver"
+	"github.com/nextdns/nextdns/resolver/query"
 )
 
 // prof area (C11): ordered profile lists x client tuples through the REAL config.Profiles Set / Get.
@@ -161,7 +161,8 @@ func runProf(src, dst net.IP, mac net.HardwareAddr, entries []string, seq [][3]s
 // query the cache context (Get and Add must agree), the request path and ResolveInfo.Profile are
 // recorded. Anything the resolver remembers about a client between queries must not change the
 // profile a later query of another tuple is resolved under.
-//   pseq <src/dst/mac>,<src/dst/mac>,… <entry>*  ->  seq=<ctx:path:profile>,…   (hex fields)
+//
+//	pseq <src/dst/mac>,<src/dst/mac>,… <entry>*  ->  seq=<ctx:path:profile>,…   (hex fields)
 func runPseq(ps config.Profiles, seq [][3]string) string {
 	cache := &recCache{}
 	rt := &recRT{}
